@@ -50,6 +50,11 @@ type SibPair struct {
 	SibFile  string `json:"sib_file"`
 	SibLine  int    `json:"sib_line"`
 	Stmt     string `json:"stmt"`
+	// NameClash: a type of the same NAME from another package is used in the
+	// same file of the importer. gogreement de-duplicates TONL01 per file by
+	// bare type name (C03's business), so which statement carries the one
+	// TONL01 is not comparable between the two worlds; TONL01 is left out.
+	NameClash bool `json:"name_clash,omitempty"`
 }
 
 // PkgoExpectation: which PKGO codes the property text demands on a line.
@@ -283,6 +288,13 @@ func Execute(c *Case, chooser func(i int) sched.Chooser, record func(i int, star
 			return strings.HasPrefix(code, "IMM") || strings.HasPrefix(code, "CTOR") || strings.HasPrefix(code, "TONL")
 		}
 		for _, sp := range c.SibPairs {
+			keep := keep
+			if sp.NameClash {
+				keep = func(code string) bool {
+					return code != "TONL01" && (strings.HasPrefix(code, "IMM") || strings.HasPrefix(code, "CTOR") || strings.HasPrefix(code, "TONL"))
+				}
+				agg.Inc("probe.sibling_pairs_with_type_name_clash")
+			}
 			a := codesOnLine(baseOut, sp.UserPkg, sp.UserFile, sp.UserLine, keep)
 			b := codesOnLine(sibOut, sp.DeclPkg, sp.SibFile, sp.SibLine, keep)
 			agg.Inc("sibling_statement_comparisons")
